@@ -350,6 +350,134 @@ func leanList(xs []string) string {
 	return "[" + strings.Join(q, ", ") + "]"
 }
 
+// ---- declaration / use nodes of package node (shared AST: one parsed body is executed through
+// every VM that runs code defined on the base VM; state kept on a node is shared by all VMs)
+
+var definingCalls = map[string]bool{"AddFunc": true, "AddClass": true, "AddInterface": true, "SetConstant": true,
+	"LoadAndRun": true, "ParseFile": true, "EvalCode": true, "CompileLoad": true}
+var resolvingCalls = map[string]bool{"GetFunc": true, "GetClass": true, "GetInterface": true, "GetOrLoadClass": true,
+	"GetOrLoadInterface": true, "LoadPkg": true}
+
+type nodeFact struct {
+	typ, method  string
+	defines      map[string]bool // defining VM methods called
+	resolves     map[string]bool // resolving VM methods called
+	recvWrites   map[string]bool // fields of the receiver (the AST node) assigned
+	globalWrites map[string]bool // package-level variables of package node assigned into
+}
+
+func rootIdent(e ast.Expr) (string, string) { // root identifier, first field after it
+	field := ""
+	for {
+		switch t := e.(type) {
+		case *ast.Ident:
+			return t.Name, field
+		case *ast.SelectorExpr:
+			field = t.Sel.Name
+			e = t.X
+		case *ast.IndexExpr:
+			e = t.X
+		case *ast.StarExpr:
+			e = t.X
+		case *ast.ParenExpr:
+			e = t.X
+		default:
+			return "", ""
+		}
+	}
+}
+
+func nodeFacts(repo string) ([]*nodeFact, string) {
+	_, files, err := ex.ParseDir(repo, "node")
+	if err != nil {
+		return nil, fmt.Sprintf("cannot parse node/: %v", err)
+	}
+	var names []string
+	for n := range files {
+		if !strings.HasSuffix(n, "_test.go") {
+			names = append(names, n)
+		}
+	}
+	sort.Strings(names)
+	pkgVars := map[string]bool{}
+	for _, n := range names {
+		for _, d := range files[n].Decls {
+			if gd, ok := d.(*ast.GenDecl); ok && gd.Tok == token.VAR {
+				for _, sp := range gd.Specs {
+					for _, id := range sp.(*ast.ValueSpec).Names {
+						pkgVars[id.Name] = true
+					}
+				}
+			}
+		}
+	}
+	var out []*nodeFact
+	for _, n := range names {
+		for _, d := range files[n].Decls {
+			fd, ok := d.(*ast.FuncDecl)
+			if !ok || fd.Body == nil {
+				continue
+			}
+			f := &nodeFact{method: fd.Name.Name, defines: map[string]bool{}, resolves: map[string]bool{}, recvWrites: map[string]bool{}, globalWrites: map[string]bool{}}
+			recv := ""
+			if fd.Recv != nil && len(fd.Recv.List) > 0 {
+				f.typ = strings.TrimPrefix(ex.TypeString(fd.Recv.List[0].Type), "*")
+				if len(fd.Recv.List[0].Names) > 0 {
+					recv = fd.Recv.List[0].Names[0].Name
+				}
+			}
+			locals := map[string]bool{}
+			write := func(lhs ast.Expr) {
+				root, field := rootIdent(lhs)
+				switch {
+				case root == "":
+				case recv != "" && root == recv && field != "":
+					f.recvWrites[field] = true
+				case pkgVars[root] && !locals[root]:
+					f.globalWrites[root] = true
+				}
+			}
+			ast.Inspect(fd.Body, func(x ast.Node) bool {
+				switch t := x.(type) {
+				case *ast.AssignStmt:
+					for _, l := range t.Lhs {
+						if id, ok := l.(*ast.Ident); ok && t.Tok == token.DEFINE {
+							locals[id.Name] = true
+							continue
+						}
+						write(l)
+					}
+				case *ast.IncDecStmt:
+					write(t.X)
+				case *ast.CallExpr:
+					if s, ok := t.Fun.(*ast.SelectorExpr); ok {
+						if definingCalls[s.Sel.Name] {
+							f.defines[s.Sel.Name] = true
+						}
+						if resolvingCalls[s.Sel.Name] {
+							f.resolves[s.Sel.Name] = true
+						}
+					}
+					if id, ok := t.Fun.(*ast.Ident); ok && id.Name == "delete" && len(t.Args) > 0 {
+						write(t.Args[0])
+					}
+				}
+				return true
+			})
+			if len(f.defines) > 0 || (len(f.resolves) > 0 && (len(f.recvWrites) > 0 || len(f.globalWrites) > 0)) {
+				out = append(out, f)
+			}
+		}
+	}
+	sort.Slice(out, func(i, j int) bool {
+		if out[i].typ != out[j].typ {
+			return out[i].typ < out[j].typ
+		}
+		return out[i].method < out[j].method
+	})
+	return out, ""
+}
+
 func main() {
 	a := ex.ParseArgs()
 	var facts []*fact
@@ -399,9 +527,9 @@ func main() {
 	}
 	sort.Slice(facts, func(i, j int) bool { return facts[i].method < facts[j].method })
 	var sb strings.Builder
-	sb.WriteString("import Model.TempRoutes\n")
+	sb.WriteString("import Model.TempRoutes\nimport Model.TempShared\n")
 	sb.WriteString("/-! C12: routing of every `runtime.TempVM` method (source: runtime/*.go, receiver TempVM). -/\n")
-	sb.WriteString("namespace Generated.C12TempVm\nopen Model.TempRoutes\n\n")
+	sb.WriteString("namespace Generated.C12TempVm\nopen Model.TempRoutes Model.TempShared\n\n")
 	sb.WriteString("def facts : List Fact := [\n")
 	for i, f := range facts {
 		shape := "none"
@@ -463,6 +591,23 @@ func main() {
 	}
 	sb.WriteString("/-- the methods of the base that parse / autoload with `vm.parser`, directly or through their own methods (checked to be closed by `ParsersBound`) -/\n")
 	fmt.Fprintf(&sb, "def vmParsing : List String := %s\n", leanList(sorted(parsing)))
+	nfs, nerr := nodeFacts(a.Repo)
+	sb.WriteString("\n/-- every function of package `node` that calls a defining VM method (AddFunc, AddClass, AddInterface, SetConstant, LoadAndRun, ParseFile, EvalCode, CompileLoad), or calls a resolving one (GetFunc, GetClass, GetInterface, GetOrLoad…, LoadPkg) and writes state: which fields of its receiver (the AST node, shared by every VM that executes code parsed on the base VM) and which package-level variables it assigns -/\n")
+	sb.WriteString("def nodeFacts : List NodeFact := [\n")
+	for i, f := range nfs {
+		fmt.Fprintf(&sb, "  { typ := %s, method := %s, defines := %s, resolves := %s, recvWrites := %s, globalWrites := %s }",
+			ex.LeanString(f.typ), ex.LeanString(f.method), leanList(sorted(f.defines)), leanList(sorted(f.resolves)), leanList(sorted(f.recvWrites)), leanList(sorted(f.globalWrites)))
+		if i+1 < len(nfs) {
+			sb.WriteString(",")
+		}
+		sb.WriteString("\n")
+	}
+	sb.WriteString("]\n")
+	if nerr == "" {
+		sb.WriteString("def nodeFactsError : Option String := none\n")
+	} else {
+		fmt.Fprintf(&sb, "def nodeFactsError : Option String := some %s\n", ex.LeanString(nerr))
+	}
 	sb.WriteString("\nend Generated.C12TempVm\n")
 	if err := ex.WriteIfChanged(a.Out, "C12TempVm.lean", sb.String()); err != nil {
 		fmt.Fprintln(os.Stderr, err)
